@@ -6,6 +6,7 @@ TaggedUnion tag a symbolic u64, every string / record key / code id a symbolic i
 The serde/bincode byte layer is outside (not encodable): see DESIGN.md.
 """
 import itertools
+import json
 import os
 import random
 import sys
@@ -222,6 +223,12 @@ def run_shapes(args):
             rec['status'] = 'violation' if f.kind == 'ffi' else 'panic'
             rec['msg'] = f.msg
             rec['where'] = f.where
+            rec['tree'] = sh
+            if f.model is not None:
+                try:
+                    rec['payloads'] = {d.name(): f.model[d].as_long() for d in f.model.decls() if d.arity() == 0 and z3.is_bv(f.model[d])}
+                except Exception:
+                    rec['payloads'] = {}
             break
         for u in ex.unsupported:
             rec['status'] = 'unsupported'
@@ -235,16 +242,69 @@ def run_shapes(args):
     return out
 
 
-def real_roundtrip_confirms(shape):
-    """the witness is a shape (payloads are irrelevant for the structural findings): the repo's own unit test suite cannot be
-    driven from here, so confirmation = reading the real source for the ErrorV arm (kept as a known finding with that evidence)"""
-    src = open(os.path.join(common.REPO, 'crates/lib/mimium-lang/src/runtime/ffi_serde.rs')).read()
-    return 'FfiValue::ErrorV => Value::Unit' in src and 'Value::ErrorV(_) => Ok(FfiValue::ErrorV)' in src
+def describe_shape(tree, payloads):
+    """JSON description for `mmdump ffi`, numbering the payload variables exactly like run_shapes.build does"""
+    ctr = [0]
+
+    def fresh(name, default):
+        ctr[0] += 1
+        return (payloads or {}).get('%s%d' % (name, ctr[0]), default)
+
+    def rec(s):
+        k = s[0]
+        if k == 'Number':
+            return dict(k=k, bits=fresh('num', 0x3FF8000000000000))
+        if k == 'String':
+            return dict(k=k, s='s%d' % fresh('sym', ctr[0]))
+        if k in ('Code', 'ErrorV'):
+            fresh('expr', 0)
+            return dict(k=k)
+        if k == 'Fixpoint':
+            fresh('sym', 0)
+            return dict(k=k)
+        if k == 'ConstructorFn':
+            fresh('tag', 0)
+            fresh('sym', 0)
+            return dict(k=k)
+        if k in ('Unit', 'Closure', 'ExternalFn', 'Store'):
+            return dict(k=k)
+        if k in ('Array', 'Tuple'):
+            return dict(k=k, c=[rec(c) for c in s[1]])
+        if k == 'Record':
+            keys, kids = [], []
+            for i, c in enumerate(s[1]):
+                keys.append('k%d_%d' % (i, fresh('key', i)))
+                kids.append(rec(c))
+            return dict(k=k, keys=keys, c=kids)
+        if k == 'TaggedUnion':
+            t = fresh('tag', 3)
+            return dict(k=k, tag=t, c=[rec(s[1][0])])
+        raise ValueError(k)
+    return rec(tree)
+
+
+def real_roundtrip_confirms(r):
+    """replay on the real crate: build the concrete Value (payloads from the solver model where there is one), push it through
+    serialize_value / deserialize_value (to_ffi_value + bincode + to_value) with `mmdump ffi` and compare with the claim"""
+    desc = describe_shape(r['tree'], r.get('payloads'))
+    try:
+        real = common.mmdump('ffi', '-', input=json.dumps([desc]), timeout=60)[0]
+    except Exception as e:
+        return False, dict(error=repr(e))
+    msg = r.get('msg') or ''
+    if real.get('panic'):
+        return True, real
+    if 'encoded instead of refused' in msg:
+        return (real.get('refused') is False), real
+    if 'is refused with an error' in msg:
+        return (real.get('refused') is True), real
+    return (real.get('refused') is False and real.get('equal') is False), real
 
 
 def run(tier, seed):
     quick = tier == 'quick'
     rep = Report(PID, tier, seed, 'model_checking')
+    common.build_mmdump()
     mirs = [common.dump_mir('mimium_lang')[0], common.dump_mir('state_tree')[0]]
     rng = random.Random(seed)
     base = shapes(1, 2)
@@ -270,12 +330,12 @@ def run(tier, seed):
                 rep.inconclusive.append('%s: unsupported: %s' % (r['shape'], r['msg'][:200]))
             elif r['status'] in ('violation', 'panic'):
                 key = 'ErrorV-becomes-Unit' if 'ErrorV' in r['shape'] and 'constructor' in (r['msg'] or '') else '%s:%s' % (r['status'], r['shape'])
-                confirmed = True
-                if key == 'ErrorV-becomes-Unit':
-                    rep.replays += 1
-                    confirmed = real_roundtrip_confirms(r['shape'])
+                rep.replays += 1
+                confirmed, real = real_roundtrip_confirms(r) if r.get('tree') is not None else (False, dict(note='no shape tree'))
                 if confirmed:
-                    rep.finding(key, dict(shape=r['shape'], msg=r['msg'], where=r.get('where')))
+                    rep.finding(key, dict(shape=r['shape'], msg=r['msg'], where=r.get('where'), replay=real))
+                else:
+                    rep.inconclusive.append('%s: "%s" is not what the real crate does with this value (%s)' % (r['shape'], (r['msg'] or '')[:80], json.dumps(real)[:160]))
             if len(rep.samples) < 8 and r['checks'] > 1:
                 rep.samples.append(dict(shape=r['shape'], payload_equalities=r['checks'], status=r['status']))
     cov = dict(states=max(1, npaths), transitions=max(1, rep.stats['queries'] + nchecks), traces_validated_against_impl=rep.replays, value_shapes=nshapes, payload_equalities=nchecks,
